@@ -22,6 +22,12 @@ def main():
     elif a.prop in ("C15", "C10", "C18"):
         import check_hub
         check_hub.run_check(a.prop, a.tier)
+    elif a.prop == "C02":
+        import check_cert
+        check_cert.run_check(a.prop, a.tier)
+    elif a.prop == "C07":
+        import check_json
+        check_json.run_check(a.prop, a.tier)
     elif a.prop == "C16":
         import check_text
         check_text.run_check(a.prop, a.tier)
